@@ -108,7 +108,7 @@ class _Run:
         return text, pos
 
     # ------------------------------------------------------------------------------------
-    def run(self) -> str:  # noqa: C901, PLR0912, PLR0915
+    def setup(self, edit_factory=None) -> None:
         import urwid  # noqa: PLC0415
         from urwid import text_layout  # noqa: PLC0415
         from urwid.widget.constants import Align  # noqa: PLC0415
@@ -118,147 +118,294 @@ class _Run:
         self.kind = cfg["kind"]
         urwid.util.set_encoding("utf-8")
         urwid.CanvasCache.clear()
-        e = self.make()
-        caplen = len(e.caption)
-        maxcol = cfg["width"]
+        e = self.e = edit_factory() if edit_factory is not None else self.make()
+        self.caplen = len(e.caption)
+        self.maxcol = cfg["width"]
         # reference editor
-        m_text = e.edit_text
-        m_pos = e.edit_pos
-        m_pref = None  # (col | "L" | "R", maxcol)
-        model_on = True
-        signals: list = []
+        self.m_text = e.edit_text
+        self.m_pos = e.edit_pos
+        self.m_pref = None  # (col | "L" | "R", maxcol)
+        self.model_on = True
+        signals = self.signals = []
         urwid.connect_signal(e, "change", lambda w, new: signals.append(("change", new, w.edit_text)))
         urwid.connect_signal(e, "postchange", lambda w, old: signals.append(("postchange", old, w.edit_text)))
-        last_render = None  # (maxcol, focus, text, pos) of the last render with nothing since
+        self.last_render = None  # (maxcol, focus, text, pos) of the last render with nothing since
         self.log.add("cfg", [repr(cfg)])
-        for i, op in enumerate(scen["ops"]):
+
+    def step(self, i, op: dict, perform=None) -> bool:  # noqa: C901, PLR0911, PLR0912, PLR0915
+        """One operation: perform it on the real widget (directly, or through `perform` when the call is made by
+        somebody else - MainLoop in a full-stack run - and merely observed), then compare with the reference
+        editor.  Returns False when the history should stop (a violation was recorded)."""
+        import urwid  # noqa: PLC0415
+        from urwid import text_layout  # noqa: PLC0415
+        from urwid.widget.constants import Align  # noqa: PLC0415
+
+        res, e, cfg = self.res, self.e, self.scen["config"]
+        signals = self.signals
+        k = op["op"]
+        del self.signals[:]
+        before_text, before_pos = e.edit_text, e.edit_pos
+        full_now = e.caption + e.edit_text
+        if any(ch == "\u0301" and (j == 0 or full_now[j - 1] in "\n \u0301\t") for j, ch in enumerate(full_now)):
+            # a display row may then consist of zero-width characters only: text layout (C03) emits
+            # zero-width segments it rejects itself; recorded as a known finding
+            self.tags.add("zero-width-char-not-attached-to-a-letter")
+        try:
+            if k == "key":
+                key = op["key"]
+                rv = perform() if perform is not None else e.keypress((self.maxcol,), key)
+                self.log.add("key", [key, repr(rv), e.edit_text, e.edit_pos])
+                if rv is not None and rv != key:
+                    self.violate("C10.6", "keypress-returned-a-different-key", f"{key!r} -> {rv!r}")
+                    return False
+                if self.model_on:
+                    exp = self.model_key(key, self.m_text, self.m_pos, self.m_pref, self.maxcol, cfg, text_layout, self.caplen, Align)
+                    if exp is not None and self.kind != "edit" and exp[3] and self.num_trims(cfg):
+                        t2, p2 = self.num_trim(exp[0], exp[1])
+                        if t2 != exp[0]:
+                            res.probe("leading_zeros_trimmed")
+                            if exp[1] == len(exp[0]):
+                                res.probe("leading_zeros_trimmed_with_cursor_at_end")
+                            exp = (t2, p2, None, True)
+                    if exp is not None:
+                        m_text2, m_pos2, m_pref2, handled = exp
+                        if (rv is None) != handled:
+                            self.violate("C10.6", f"key-{'returned' if handled else 'swallowed'}:{self.key_class(key)}", f"step {i}: key {key!r} text {self.m_text!r} pos {self.m_pos}: urwid returned {rv!r}, editor model says handled={handled}")
+                            return False
+                        if (e.edit_text, e.edit_pos) != (m_text2, m_pos2):
+                            self.violate("C10.1", f"text-or-offset-differs-from-editor-model after={self.key_class(key)} wrap={cfg.get('wrap')}", f"step {i}: key {key!r} width {self.maxcol} from ({self.m_text!r},{self.m_pos}) pref {self.m_pref}: urwid ({e.edit_text!r},{e.edit_pos}) model ({m_text2!r},{m_pos2})")
+                            return False
+                        self.m_text, self.m_pos, self.m_pref = m_text2, m_pos2, m_pref2
+                    elif (e.edit_text, e.edit_pos) == (self.m_text, self.m_pos) and rv == key:
+                        pass  # not used by the editor: nothing changes, the preferred column stays
+                    else:
+                        self.m_text, self.m_pos, self.m_pref = e.edit_text, e.edit_pos, None
+                self.last_render = None
+            elif k == "click":
+                x, y = op["x"] % self.maxcol, op["y"]
+                shown = self.last_render
+                flag_stale = shown is not None and bool(e._shift_view_to_cursor) != bool(shown[1])  # noqa: SLF001
+                rv = perform() if perform is not None else e.mouse_event((self.maxcol,), "mouse press", 1, x, y, True)
+                self.log.add("click", [x, y, repr(rv), e.edit_pos])
+                if e.edit_text != before_text:
+                    self.violate("C10.4", "click-changed-the-text", f"step {i}")
+                    return False
+                if self.model_on and shown is not None and shown[0] == self.maxcol and shown[2] == before_text:
+                    # what the user sees is the last render: the click must land on that character
+                    tw = self.twin(shown[2], shown[3])
+                    tw.render((self.maxcol,), shown[1])
+                    trans = tw.get_line_translation(self.maxcol)
+                    full = tw.get_text()[0]
+                    top_y = text_layout.calc_coords(full, trans, self.caplen)[1]
+                    if y < top_y:
+                        # a row that holds caption only: urwid ignores the click
+                        if rv or e.edit_pos != before_pos:
+                            self.violate("C10.4", "click-on-caption-row-moved-the-cursor", f"step {i}: ({x},{y}) top row of the text {top_y}")
+                            return False
+                    elif y < len(trans):
+                        want = min(max(text_layout.calc_pos(full, trans, x, y) - self.caplen, 0), len(before_text))
+                        if not rv or e.edit_pos != want:
+                            if flag_stale:
+                                self.tags.add("view-shift-flag-differs-from-last-render")
+                            self.violate("C10.4", f"click-put-cursor-on-another-character wrap={cfg.get('wrap')}", f"step {i}: click ({x},{y}) width {self.maxcol} on view rendered with focus={shown[1]} pos={shown[3]} text {before_text!r}: cursor at {e.edit_pos}, character under the click is at {want}")
+                            return False
+                        res.probe("click_checked_against_last_render")
+                        if shown[1] is False or shown[3] != before_pos:
+                            res.probe("click_with_stale_view_shift")
+                    elif rv:
+                        self.violate("C10.4", "click-outside-rows-accepted", f"step {i}: ({x},{y}) rows {len(trans)}")
+                        return False
+                self.m_text, self.m_pos = e.edit_text, e.edit_pos
+                self.m_pref = (x, self.maxcol) if rv else self.m_pref
+                self.last_render = None
+            elif k == "render":
+                focus = bool(op.get("focus", True))
+                canv = perform() if perform is not None else e.render((self.maxcol,), focus)
+                # like a screen, keep the last canvas alive until the next one replaces it: later renders with the
+                # same arguments are then answered from the canvas cache (which is what makes the view-shift flag go stale)
+                self.held_canvas = canv
+                self.log.add("render", [self.maxcol, focus, canv.rows(), repr(canv.cursor)])
+                if focus:
+                    cc = e.get_cursor_coords((self.maxcol,))
+                    if canv.cursor != cc:
+                        self.violate("C10.3", "render-cursor-differs-from-get_cursor_coords", f"step {i}: {canv.cursor} vs {cc}")
+                        return False
+                    if not self.check_cursor_cell(i, canv, e, self.maxcol, cfg):
+                        return False
+                elif canv.cursor is not None:
+                    self.violate("C10.3", "cursor-drawn-without-focus", f"step {i}")
+                    return False
+                self.last_render = (self.maxcol, focus, e.edit_text, e.edit_pos)
+                res.states.add(f"{self.kind}/{cfg.get('wrap')}/{focus}/{canv.rows() > 1}/{e.edit_pos == len(e.edit_text)}/{e.edit_pos == 0}")
+            elif k == "width":
+                self.maxcol = op["w"]
+                self.log.add("width", self.maxcol)
+                res.fault("width_change")
+                self.last_render = None
+            elif k == "set_text":
+                e.set_edit_text(op["text"])
+                self.m_text = op["text"]
+                self.m_pos = min(self.m_pos, len(self.m_text)) if e.edit_pos == min(self.m_pos, len(self.m_text)) else e.edit_pos
+                self.m_pos = e.edit_pos
+                self.m_pref = None
+                self.last_render = None
+            elif k == "set_pos":
+                e.set_edit_pos(op["pos"])
+                self.m_pos = max(0, min(op["pos"], len(before_text)))
+                if e.edit_pos != self.m_pos:
+                    self.violate("C10.2", "set_edit_pos-not-clamped-to-text", f"step {i}: {op['pos']} -> {e.edit_pos}, text length {len(before_text)}")
+                    return False
+                self.m_pref = None
+                self.last_render = None
+        except Exception as ex:  # noqa: BLE001
+            if core.raised_in_harness(ex):
+                raise core.HarnessError(f"harness exception in op {op}: {core.format_exc(ex)}") from ex
+            self.violate("C10.1", f"{k}-raised:{core.exc_signature(ex)}", f"step {i} {op} width {self.maxcol} text {before_text!r} pos {before_pos}: {core.format_exc(ex)}")
+            return False
+        # clause 2: offset within the text
+        if not 0 <= e.edit_pos <= len(e.edit_text):
+            self.violate("C10.2", "offset-outside-text", f"step {i}: pos {e.edit_pos} len {len(e.edit_text)}")
+            return False
+        # clause 5: change before with the new text, postchange after with the old text
+        if e.edit_text != before_text or self.signals:
+            if not self.check_signals(i, self.signals, before_text, e.edit_text, k):
+                return False
+        # clause 7: numeric alphabets
+        if self.kind != "edit" and not self.check_alphabet(i, e, cfg):
+            return False
+        return True
+
+    # ---- full-stack run: bytes -> Screen -> MainLoop -> Filler(Edit) -> draw_screen -> RefTerm ----------
+    def run_stack(self) -> str:  # noqa: C901, PLR0915
+        """The same kind of history as timed external events.  MainLoop makes the calls (keypress / mouse_event per
+        input batch, render at idle, a new width after SIGWINCH); hooks on the Edit instance hand every call to
+        step(), so the reference editor follows exactly the call sequence a live program produced - including
+        cache hits and the flags that renders and cursor queries leave behind."""
+        import urwid  # noqa: PLC0415
+
+        from simkit import appstack  # noqa: PLC0415
+
+        scen, res = self.scen, self.res
+        cfg = scen["config"]
+        st = cfg["stack"]
+        rows = st.get("rows", 6)
+        width = cfg["width"]
+        events = []
+        t = 0.125
+        for op in scen["ops"]:
             k = op["op"]
-            del signals[:]
-            before_text, before_pos = e.edit_text, e.edit_pos
-            full_now = e.caption + e.edit_text
-            if any(ch == "\u0301" and (j == 0 or full_now[j - 1] in "\n \u0301\t") for j, ch in enumerate(full_now)):
-                # a display row may then consist of zero-width characters only: text layout (C03) emits
-                # zero-width segments it rejects itself; recorded as a known finding
-                self.tags.add("zero-width-char-not-attached-to-a-letter")
-            try:
-                if k == "key":
-                    key = op["key"]
-                    rv = e.keypress((maxcol,), key)
-                    self.log.add("key", [key, repr(rv), e.edit_text, e.edit_pos])
-                    if rv is not None and rv != key:
-                        self.violate("C10.6", "keypress-returned-a-different-key", f"{key!r} -> {rv!r}")
-                        break
-                    if model_on:
-                        exp = self.model_key(key, m_text, m_pos, m_pref, maxcol, cfg, text_layout, caplen, Align)
-                        if exp is not None and self.kind != "edit" and exp[3] and self.num_trims(cfg):
-                            t2, p2 = self.num_trim(exp[0], exp[1])
-                            if t2 != exp[0]:
-                                res.probe("leading_zeros_trimmed")
-                                if exp[1] == len(exp[0]):
-                                    res.probe("leading_zeros_trimmed_with_cursor_at_end")
-                                exp = (t2, p2, None, True)
-                        if exp is not None:
-                            m_text2, m_pos2, m_pref2, handled = exp
-                            if (rv is None) != handled:
-                                self.violate("C10.6", f"key-{'returned' if handled else 'swallowed'}:{self.key_class(key)}", f"step {i}: key {key!r} text {m_text!r} pos {m_pos}: urwid returned {rv!r}, editor model says handled={handled}")
-                                break
-                            if (e.edit_text, e.edit_pos) != (m_text2, m_pos2):
-                                self.violate("C10.1", f"text-or-offset-differs-from-editor-model after={self.key_class(key)} wrap={cfg.get('wrap')}", f"step {i}: key {key!r} width {maxcol} from ({m_text!r},{m_pos}) pref {m_pref}: urwid ({e.edit_text!r},{e.edit_pos}) model ({m_text2!r},{m_pos2})")
-                                break
-                            m_text, m_pos, m_pref = m_text2, m_pos2, m_pref2
-                        elif (e.edit_text, e.edit_pos) == (m_text, m_pos) and rv == key:
-                            pass  # not used by the editor: nothing changes, the preferred column stays
-                        else:
-                            m_text, m_pos, m_pref = e.edit_text, e.edit_pos, None
-                    last_render = None
-                elif k == "click":
-                    x, y = op["x"] % maxcol, op["y"]
-                    shown = last_render
-                    flag_stale = shown is not None and bool(e._shift_view_to_cursor) != bool(shown[1])  # noqa: SLF001
-                    rv = e.mouse_event((maxcol,), "mouse press", 1, x, y, True)
-                    self.log.add("click", [x, y, repr(rv), e.edit_pos])
-                    if e.edit_text != before_text:
-                        self.violate("C10.4", "click-changed-the-text", f"step {i}")
-                        break
-                    if model_on and shown is not None and shown[0] == maxcol and shown[2] == before_text:
-                        # what the user sees is the last render: the click must land on that character
-                        tw = self.twin(shown[2], shown[3])
-                        tw.render((maxcol,), shown[1])
-                        trans = tw.get_line_translation(maxcol)
-                        full = tw.get_text()[0]
-                        top_y = text_layout.calc_coords(full, trans, caplen)[1]
-                        if y < top_y:
-                            # a row that holds caption only: urwid ignores the click
-                            if rv or e.edit_pos != before_pos:
-                                self.violate("C10.4", "click-on-caption-row-moved-the-cursor", f"step {i}: ({x},{y}) top row of the text {top_y}")
-                                break
-                        elif y < len(trans):
-                            want = min(max(text_layout.calc_pos(full, trans, x, y) - caplen, 0), len(before_text))
-                            if not rv or e.edit_pos != want:
-                                if flag_stale:
-                                    self.tags.add("view-shift-flag-differs-from-last-render")
-                                self.violate("C10.4", f"click-put-cursor-on-another-character wrap={cfg.get('wrap')}", f"step {i}: click ({x},{y}) width {maxcol} on view rendered with focus={shown[1]} pos={shown[3]} text {before_text!r}: cursor at {e.edit_pos}, character under the click is at {want}")
-                                break
-                            res.probe("click_checked_against_last_render")
-                            if shown[1] is False or shown[3] != before_pos:
-                                res.probe("click_with_stale_view_shift")
-                        elif rv:
-                            self.violate("C10.4", "click-outside-rows-accepted", f"step {i}: ({x},{y}) rows {len(trans)}")
-                            break
-                    m_text, m_pos = e.edit_text, e.edit_pos
-                    m_pref = (x, maxcol) if rv else m_pref
-                    last_render = None
-                elif k == "render":
-                    focus = bool(op.get("focus", True))
-                    canv = e.render((maxcol,), focus)
-                    self.log.add("render", [maxcol, focus, canv.rows(), repr(canv.cursor)])
-                    if focus:
-                        cc = e.get_cursor_coords((maxcol,))
-                        if canv.cursor != cc:
-                            self.violate("C10.3", "render-cursor-differs-from-get_cursor_coords", f"step {i}: {canv.cursor} vs {cc}")
-                            break
-                        if not self.check_cursor_cell(i, canv, e, maxcol, cfg):
-                            break
-                    elif canv.cursor is not None:
-                        self.violate("C10.3", "cursor-drawn-without-focus", f"step {i}")
-                        break
-                    last_render = (maxcol, focus, e.edit_text, e.edit_pos)
-                    res.states.add(f"{self.kind}/{cfg.get('wrap')}/{focus}/{canv.rows() > 1}/{e.edit_pos == len(e.edit_text)}/{e.edit_pos == 0}")
-                elif k == "width":
-                    maxcol = op["w"]
-                    self.log.add("width", maxcol)
-                    res.fault("width_change")
-                    last_render = None
-                elif k == "set_text":
-                    e.set_edit_text(op["text"])
-                    m_text = op["text"]
-                    m_pos = min(m_pos, len(m_text)) if e.edit_pos == min(m_pos, len(m_text)) else e.edit_pos
-                    m_pos = e.edit_pos
-                    m_pref = None
-                    last_render = None
-                elif k == "set_pos":
-                    e.set_edit_pos(op["pos"])
-                    m_pos = max(0, min(op["pos"], len(before_text)))
-                    if e.edit_pos != m_pos:
-                        self.violate("C10.2", "set_edit_pos-not-clamped-to-text", f"step {i}: {op['pos']} -> {e.edit_pos}, text length {len(before_text)}")
-                        break
-                    m_pref = None
-                    last_render = None
-            except Exception as ex:  # noqa: BLE001
-                if core.raised_in_harness(ex):
-                    raise core.HarnessError(f"harness exception in op {op}: {core.format_exc(ex)}") from ex
-                self.violate("C10.1", f"{k}-raised:{core.exc_signature(ex)}", f"step {i} {op} width {maxcol} text {before_text!r} pos {before_pos}: {core.format_exc(ex)}")
-                break
-            # clause 2: offset within the text
-            if not 0 <= e.edit_pos <= len(e.edit_text):
-                self.violate("C10.2", "offset-outside-text", f"step {i}: pos {e.edit_pos} len {len(e.edit_text)}")
-                break
-            # clause 5: change before with the new text, postchange after with the old text
-            if e.edit_text != before_text or signals:
-                if not self.check_signals(i, signals, before_text, e.edit_text, k):
-                    break
-            # clause 7: numeric alphabets
-            if self.kind != "edit" and not self.check_alphabet(i, e, cfg):
+            t += float(op.get("dt", 0.25 if k == "render" else 0))
+            if k == "key":
+                hx = appstack.key_hex(op["key"])
+                if hx and op["key"] != "esc":
+                    events.append({"ev": "bytes", "t": t, "hex": hx})
+            elif k == "click":
+                x, y = op["x"] % width, op["y"] % rows
+                events.append({"ev": "bytes", "t": t, "hex": appstack.mouse_hex(1, x, y) + appstack.mouse_hex(1, x, y, True)})
+            elif k == "width":
+                width = op["w"]
+                events.append({"ev": "resize", "t": t, "cols": width, "rows": rows})
+            elif k in ("set_text", "set_pos"):
+                events.append({"ev": "app", "t": t, "op": op})
+        self.active = True
+        self.n_steps = 0
+
+        def do_step(op, perform=None):
+            self.n_steps += 1
+            if not self.active:
+                return perform() if perform is not None else None
+            out = {}
+
+            def wrapped():
+                out["rv"] = perform()
+                return out["rv"]
+
+            if not self.step(f"call {self.n_steps}", op, wrapped if perform is not None else None):
+                self.active = False
+            return out.get("rv")
+
+        def sync_width(w):
+            if w != self.maxcol and self.active:
+                do_step({"op": "width", "w": w})
+
+        def factory():
+            self.setup()
+            e = self.e
+            o_kp, o_me, o_render = e.keypress, e.mouse_event, e.render
+
+            def keypress(size, key):
+                sync_width(size[0])
+                return do_step({"op": "key", "key": key}, lambda: o_kp(size, key))
+
+            def mouse_event(size, event, button, col, row, focus):
+                sync_width(size[0])
+                if button == 1 and not 0 <= col < size[0] and self.active:
+                    # the terminal is already wider than the application knows (SIGWINCH not yet processed): the cell lies
+                    # outside the widget, no character is under it; not judged, the reference editor follows urwid
+                    res.probe("stack_click_outside_widget_width")
+                    rv = o_me(size, event, button, col, row, focus)
+                    self.m_text, self.m_pos = e.edit_text, e.edit_pos
+                    self.m_pref = (col, self.maxcol) if rv else self.m_pref
+                    self.last_render = None
+                    return rv
+                if button == 1:  # Edit moves its cursor for ANY button-1 event (press, SGR release, drag)
+                    return do_step({"op": "click", "x": col, "y": row}, lambda: o_me(size, event, button, col, row, focus))
+                return o_me(size, event, button, col, row, focus)
+
+            def render(size, focus=False):
+                sync_width(size[0])
+                if not self.active:
+                    return o_render(size, focus)
+                return do_step({"op": "render", "focus": focus}, lambda: o_render(size, focus))
+
+            e.keypress, e.mouse_event, e.render = keypress, mouse_event, render
+            return urwid.Filler(e, valign="top")
+
+        def apply_app(op):
+            do_step(op)
+
+        def on_stable(stack):
+            if not self.active or res.violations:
+                return
+            cols, nrows = stack.size()
+            canv = getattr(self, "held_canvas", None)
+            if canv is None or cols != self.maxcol or canv.cursor is None:
+                return
+            cx, cy = canv.cursor
+            if cy >= nrows or canv.rows() > nrows:
+                return  # the Filler clips an Edit taller than the screen
+            got = stack.screen_cursor()
+            if got != (cx, cy):
+                self.violate("C10.3", "terminal-cursor-differs-from-edit-cursor-when-loop-waits", f"stable point {stack.stable_points} size {(cols, nrows)}: terminal {got}, Edit canvas cursor {(cx, cy)}, text {self.e.edit_text!r} pos {self.e.edit_pos}")
+                self.active = False
+                return
+            res.probe("stack_cursor_checked_on_terminal")
+
+        stack = appstack.AppStack({"size": [cfg["width"], rows], "loop": st.get("loop", "select"), "tiebreak": st.get("tiebreak", ())}, res, factory, apply_app, on_stable)
+        digest = stack.run(events)
+        how, exc = stack.outcome
+        if how == "raised":
+            if isinstance(exc, core.HarnessError):
+                raise exc
+            if core.raised_in_harness(exc):
+                raise core.HarnessError(f"harness exception in full-stack run: {core.format_exc(exc)}") from exc
+            if not res.violations:
+                self.violate("C10.1", f"full-stack-run-raised:{core.exc_signature(exc)}", core.format_exc(exc))
+        elif how in ("livelock", "quiescent") and not res.violations:
+            self.violate("C10.1", f"full-stack-run-{how}", str(exc))
+        else:
+            res.probe("stack_run_completed")
+        self.log.add("stack-digest", digest)
+        if self.log.keep:
+            self.log.lines.extend(stack.log_lines)
+        return self.log.digest()
+
+    def run(self) -> str:
+        import urwid  # noqa: PLC0415
+
+        self.setup()
+        for i, op in enumerate(self.scen["ops"]):
+            if not self.step(i, op):
                 break
         urwid.CanvasCache.clear()
         return self.log.digest()
@@ -490,12 +637,17 @@ class EditEngine(Engine):
             else:
                 ops.append({"op": "set_pos", "pos": rng.choice([0, 1, 3, 7, 100])})
         ops.append({"op": "render", "focus": True})
+        if rng.random() < 0.1 and cfg["width"] >= 2:
+            # full stack: the same history as timed external events; dt = 0 batches an event with its predecessor
+            cfg["stack"] = {"loop": rng.choice(["select", "select", "select", "asyncio", "zmq", "tornado", "twisted", "trio"]), "tiebreak": [rng.randrange(4) for _ in range(8)], "rows": rng.choice([3, 6, 12])}
+            for op in ops:
+                op["dt"] = 0.25 if op["op"] == "render" else rng.choice([0, 0, 0, 1 / 1024, 0.0625, 0.25])
         return {"config": cfg, "ops": ops}
 
     def execute(self, scen: dict) -> Result:
         res = Result()
         run = _Run(scen, res)
-        res.digest = run.run()
+        res.digest = run.run_stack() if scen["config"].get("stack") else run.run()
         kinds = [o["op"] for o in scen["ops"]]
         for a, b, c in zip(kinds, kinds[1:], kinds[2:]):
             if a in ("key", "click") and b in ("render", "width") and c in ("key", "click"):
